@@ -157,6 +157,11 @@ class StmtMixin:
                     if t is None:
                         raise _NoMerge()
                 ts.append(t)
+            if fid == '$alloc':
+                # the allocation set is only ever read through select: a named merged array keeps the monotonicity
+                # chain instantiable (nested ite arrays do not E-match)
+                out.heap[fid] = ts[0] if all(t.eq(ts[0]) for t in ts[1:]) else ite(ts)
+                continue
             out.heap[fid] = ts[0] if all(t.eq(ts[0]) for t in ts[1:]) else heap_ite(ts)
         # cells
         cids = set()
